@@ -37,11 +37,18 @@ CONSTANTS Waiters,        \* identities of the goroutines that wait on the bucke
           AllowRelax,     \* TRUE only in the low-rate configurations, see Relax below
           Prompt,         \* TRUE: a waiter proceeds exactly at its wake-up instant (virtual clock)
           History,        \* TRUE: keep the per-instant history so that UpperIntervals can be evaluated
-          OwnBucket       \* FALSE (Cloak): all waiters of the user share ONE bucket.  TRUE: every waiter has a
+          OwnBucket,      \* FALSE (Cloak): all waiters of the user share ONE bucket.  TRUE: every waiter has a
                           \* bucket of its own (a valve per session / per user record) - negative configuration
+          CheckThenTake,  \* FALSE (Cloak: Bucket.Wait, one critical section).  TRUE: the valve first asks Available()
+                          \* and, if that is enough, calls TakeAvailable() in a second critical section and proceeds
+                          \* whatever it got - negative configuration
+          ClosingSkipsTake \* FALSE (Cloak: switchboard.send waits for tokens whatever the state of the session).
+                          \* TRUE: a frame sent on a session that is being closed (the closing notice, the rest of a
+                          \* write in flight) goes out without taking tokens - negative configuration
 
 ASSUME Mode \in {"before", "after", "none"}
 ASSUME CapFactor \in Nat \ {0} /\ MaxTime \in Nat /\ AllowRelax \in BOOLEAN /\ Prompt \in BOOLEAN /\ History \in BOOLEAN /\ OwnBucket \in BOOLEAN
+ASSUME CheckThenTake \in BOOLEAN /\ ClosingSkipsTake \in BOOLEAN
 
 VARIABLES par,      \* [quantum, fi, burst, bl] fixed by Init
           now,      \* clock
@@ -49,11 +56,12 @@ VARIABLES par,      \* [quantum, fi, burst, bl] fixed by Init
           latest,   \* latest[b]: Bucket.latestTick
           wake,     \* wake[w]: instant at which waiter w may proceed, -1 = not waiting
           pend,     \* pend[w]: bytes w is holding back
+          chk,      \* chk[w] > 0: w has seen Available() >= chk[w] and is about to call TakeAvailable (CheckThenTake only)
           q,        \* virtual queue (upper-bound meter), scaled by fi
           d,        \* deficit (lower-bound meter), scaled by fi
           last,     \* instant of the last pass (both meters are brought up to date there)
           passedAt  \* history: bytes that crossed the measuring point at each instant
-vars == <<par, now, avail, latest, wake, pend, q, d, last, passedAt>>
+vars == <<par, now, avail, latest, wake, pend, chk, q, d, last, passedAt>>
 
 \* the user's bucket(s): one shared by everybody, or (negative configuration) one per waiter
 Buckets     == IF OwnBucket THEN Waiters ELSE {"user"}
@@ -73,7 +81,7 @@ Init == /\ par \in [quantum : Quanta, fi : FillIntervals, burst : Bursts,
                     bl : {S \in SUBSET Waiters : Cardinality(S) \in BacklogCounts}]
         /\ now = 0
         /\ avail = [b \in Buckets |-> CapFactor * par.burst] /\ latest = [b \in Buckets |-> 0]
-        /\ wake = [w \in Waiters |-> -1] /\ pend = [w \in Waiters |-> 0]
+        /\ wake = [w \in Waiters |-> -1] /\ pend = [w \in Waiters |-> 0] /\ chk = [w \in Waiters |-> 0]
         /\ q = 0 /\ d = 0 /\ last = 0
         /\ passedAt = [t \in 0..MaxTime |-> 0]
 
@@ -87,7 +95,7 @@ Account(n) ==
 
 \* ratelimit.go Bucket.take (maxWait = infinity) preceded by adjustavailableTokens
 Take(w, n) ==
-  /\ wake[w] = -1
+  /\ wake[w] = -1 /\ chk[w] = 0
   /\ LET b    == BucketOf(w)
          tk   == now \div par.fi                          \* currentTick(now)
          a0   == IF avail[b] >= Cap THEN avail[b]         \* adjustavailableTokens
@@ -104,23 +112,51 @@ Take(w, n) ==
                                    /\ UNCHANGED pend
              [] Mode = "none"   -> /\ Account(n)
                                    /\ UNCHANGED <<wake, pend>>
-  /\ UNCHANGED <<par, now>>
+  /\ UNCHANGED <<par, now, chk>>
+
+\* CheckThenTake only: Available() (which brings the balance up to date) says there is enough ...
+Adjusted(b) == LET tk == now \div par.fi IN
+               IF avail[b] >= Cap THEN avail[b] ELSE Min(Cap, avail[b] + (tk - latest[b]) * par.quantum)
+Check(w, n) ==
+  /\ CheckThenTake /\ wake[w] = -1 /\ chk[w] = 0
+  /\ Adjusted(BucketOf(w)) >= n          \* otherwise the valve falls through to Wait = Take(w, n)
+  /\ avail' = [avail EXCEPT ![BucketOf(w)] = Adjusted(BucketOf(w))]
+  /\ latest' = [latest EXCEPT ![BucketOf(w)] = now \div par.fi]
+  /\ chk' = [chk EXCEPT ![w] = n]
+  /\ UNCHANGED <<par, now, wake, pend, q, d, last, passedAt>>
+\* ... and TakeAvailable() takes what is there NOW (possibly less, possibly nothing); the caller proceeds at once
+TakeAvail(w) ==
+  /\ chk[w] > 0
+  /\ LET b == BucketOf(w)  a0 == Adjusted(b)  got == IF a0 <= 0 THEN 0 ELSE Min(chk[w], a0) IN
+     /\ avail' = [avail EXCEPT ![b] = a0 - got] /\ latest' = [latest EXCEPT ![b] = now \div par.fi]
+  /\ wake' = [wake EXCEPT ![w] = now] /\ pend' = [pend EXCEPT ![w] = chk[w]]
+  /\ chk' = [chk EXCEPT ![w] = 0]
+  /\ UNCHANGED <<par, now, q, d, last, passedAt>>
+
+\* a frame sent on a session that is being closed: in Cloak an ordinary send (it must still take tokens)
+SendClosing(w, n) ==
+  IF ClosingSkipsTake
+  THEN /\ wake[w] = -1 /\ chk[w] = 0 /\ Account(n)
+       /\ UNCHANGED <<par, now, avail, latest, wake, pend, chk>>
+  ELSE Take(w, n)
 
 \* the sleep is over: the bytes go out / are handed on
 Pass(w) ==
   /\ wake[w] # -1 /\ now >= wake[w]
   /\ IF pend[w] > 0 THEN Account(pend[w]) ELSE UNCHANGED <<q, d, last, passedAt>>
   /\ wake' = [wake EXCEPT ![w] = -1] /\ pend' = [pend EXCEPT ![w] = 0]
-  /\ UNCHANGED <<par, now, avail, latest>>
+  /\ UNCHANGED <<par, now, avail, latest, chk>>
 
 Tick ==
   /\ now < MaxTime
+  /\ \A w \in Waiters : chk[w] = 0                                 \* the gap between the two calls is no time at all
   /\ Prompt => \A w \in Waiters : wake[w] = -1 \/ wake[w] > now   \* nobody oversleeps on the virtual clock
   /\ \A w \in par.bl : wake[w] # -1                                \* a backlogged waiter has asked again
   /\ now' = now + 1
-  /\ UNCHANGED <<par, avail, latest, wake, pend, q, d, last, passedAt>>
+  /\ UNCHANGED <<par, avail, latest, wake, pend, chk, q, d, last, passedAt>>
 
-Next == \/ \E w \in Waiters, n \in Sizes : Take(w, n)
+Next == \/ \E w \in Waiters, n \in Sizes : Take(w, n) \/ Check(w, n) \/ SendClosing(w, n)
+        \/ \E w \in Waiters : TakeAvail(w)
         \/ \E w \in Waiters : Pass(w)
         \/ Tick
 Spec == Init /\ [][Next]_vars
